@@ -247,6 +247,88 @@ func tracking(c *evid.Ctx, depth int) {
 	}
 }
 
+// editDuringReload: an external edit does not wait for the poller. The parser is the library's own,
+// wrapped so that a second edit lands at a chosen point INSIDE one reload - between the stat that
+// noticed the first edit and the read, or right after the read - with a newer modification time
+// (1 ms .. 4 s). Once the file is quiet, two further polls must have loaded what is on disk and
+// notified the observer.
+type hookParser struct {
+	inner                 conffile.FileParser
+	beforeRead, afterRead func()
+}
+
+func (h *hookParser) Read(p string) (map[string]string, error) {
+	if h.beforeRead != nil {
+		f := h.beforeRead
+		h.beforeRead = nil
+		f()
+	}
+	m, err := h.inner.Read(p)
+	if h.afterRead != nil {
+		f := h.afterRead
+		h.afterRead = nil
+		f()
+	}
+	return m, err
+}
+func (h *hookParser) Write(p string, m *map[string]string) error { return h.inner.Write(p, m) }
+
+func editDuringReload(c *evid.Ctx) {
+	e := newEnv(c)
+	if e == nil {
+		return
+	}
+	defer os.RemoveAll(e.dir)
+	for _, point := range []string{"before-read", "after-read"} {
+		for _, dt := range []time.Duration{time.Millisecond, time.Second, 4 * time.Second} {
+			for _, second := range []string{"k1=c\n", "k1=c\nk2=new\n", "k2=only\n"} {
+				c.Count("states", 1)
+				c.Count("evaluations", 1)
+				vtime.SetVirtual(t0)
+				mt := t0.Add(-time.Hour)
+				e.write("k1=init\n", mt)
+				obs := &observer{}
+				co := config.NewConfigObserver()
+				co.Add("obs", obs)
+				hp := &hookParser{inner: conffile.NewDefaultFileParser()}
+				fc := conffile.VerifNew(conffile.WithHomePath(e.dir), conffile.WithConfigObserver(co), conffile.WithParser(hp))
+				// first edit, noticed by the next poll
+				mt = mt.Add(time.Second)
+				e.write("k1=b\n", mt)
+				mt2 := mt.Add(dt)
+				edit2 := func() { e.write(second, mt2) }
+				if point == "before-read" {
+					hp.beforeRead = edit2
+				} else {
+					hp.afterRead = edit2
+				}
+				vtime.Advance(3100 * time.Millisecond)
+				fc.VerifReload()
+				if hp.beforeRead != nil || hp.afterRead != nil {
+					c.Info("editDuringReload: the reload did not go through the parser (point %s)", point)
+					continue
+				}
+				for i := 0; i < 2; i++ {
+					vtime.Advance(3100 * time.Millisecond)
+					fc.VerifReload()
+				}
+				desc := fmt.Sprintf("edit to \"k1=b\", poll; a second edit to %q (mtime +%v) lands %s of that reload; two further polls", second, dt, map[string]string{"before-read": "between the stat and the read", "after-read": "right after the read"}[point])
+				for k, v := range parseProps(second) {
+					if got := fc.GetValue(k); got != strings.TrimSpace(v) {
+						c.Violation("C18:tracking:edit-during-reload", fmt.Sprintf("%s: the quiescent file says %s=%q but the configuration returns %q", desc, k, v, got), map[string]interface{}{"engine": "E2", "history": desc})
+						break
+					}
+				}
+				// (a key that is no longer in the file keeps its last value: the property speaks about the
+				// keys that ARE in the file)
+				if exp := fc.GetValue("k1") + "|" + fc.GetValue("k2"); obs.last != exp {
+					c.Violation("C18:tracking:observer-stale", fmt.Sprintf("%s: the observer last saw %q, the configuration holds %q", desc, obs.last, exp), nil)
+				}
+			}
+		}
+	}
+}
+
 // ---- typed getters ------------------------------------------------------------------------------------------
 
 func getters(c *evid.Ctx) {
@@ -581,6 +663,7 @@ func Run(c *evid.Ctx) {
 		depth = 4
 	}
 	tracking(c, depth)
+	editDuringReload(c)
 	observers(c)
 	getters(c)
 	writeBack(c)
